@@ -1,16 +1,203 @@
 package main
 
-// Maps (placeholder until the map model is built).
+// Go maps: a map value is a reference; per map type three heap components hold the domain, the
+// values and the length. Keys with several leaves (structs) are curried.
 
 import (
+	"fmt"
+	"strings"
+	"go/token"
+	"go/types"
+
 	"golang.org/x/tools/go/ssa"
 )
 
-func (x *Exec) mapLookup(fr *Frame, st *State, i *ssa.Lookup, base Value) { unsupported("map lookup") }
-func (x *Exec) mapUpdate(fr *Frame, st *State, i *ssa.MapUpdate)          { unsupported("map update") }
-func (x *Exec) makeMap(fr *Frame, st *State, i *ssa.MakeMap)              { unsupported("make map") }
-func (x *Exec) mapLen(st *State, m Value) *Term                            { unsupported("map len"); return nil }
-func (x *Exec) mapDelete(fr *Frame, st *State, m, k Value)                 { unsupported("map delete") }
-func (x *Exec) mapGetSpec(c *CEnv, m, k Value) Value                       { unsupported("map index in contract"); return Value{} }
-func (x *Exec) rangeInit(fr *Frame, st *State, i *ssa.Range)               { unsupported("range over map/string") }
-func (x *Exec) rangeNext(fr *Frame, st *State, i *ssa.Next)                { unsupported("range next") }
+type mapInfo struct {
+	key    string
+	kt, vt types.Type
+	ksorts []string
+}
+
+func (x *Exec) mapInfoOf(t types.Type) mapInfo {
+	mt := t.Underlying().(*types.Map)
+	mi := mapInfo{key: "Map." + typeKey(mt), kt: mt.Key(), vt: mt.Elem()}
+	for _, lf := range x.m().flatten(mt.Key()) {
+		mi.ksorts = append(mi.ksorts, lf.Sort)
+	}
+	return mi
+}
+
+func curried(ksorts []string, leaf string) string {
+	s := leaf
+	for i := len(ksorts) - 1; i >= 0; i-- {
+		s = SArr(ksorts[i], s)
+	}
+	return s
+}
+
+func (x *Exec) mapDom(st *State, mi mapInfo) *Term {
+	return x.comp(st, mi.key+".dom", SArr(refSort, curried(mi.ksorts, SBool)))
+}
+func (x *Exec) mapLenComp(st *State, mi mapInfo) *Term {
+	return x.comp(st, mi.key+".len", SArr(refSort, x.m().ixSort()))
+}
+
+// keyLeaves: the SMT index terms of a key. Fixed-size array components ([32]byte hashes) are
+// normalised (zero outside 0..N-1) so that index equality coincides with Go's element-wise ==.
+func (x *Exec) keyLeaves(k Value) []*Term {
+	if !k.isCanonical() {
+		unsupported("map key holding an interior pointer")
+	}
+	m := x.m()
+	ls := k.leaves(m)
+	if k.T == nil {
+		return ls
+	}
+	lfs := m.flatten(k.T)
+	if len(lfs) != len(ls) {
+		return ls
+	}
+	out := make([]*Term, len(ls))
+	for i, lf := range lfs {
+		out[i] = ls[i]
+		if lf.T == nil {
+			continue
+		}
+		at, ok := lf.T.Underlying().(*types.Array)
+		if !ok {
+			continue
+		}
+		name := fmt.Sprintf("norm%d", at.Len())
+		q := quoteSym(name + "." + lf.Sort)
+		if _, ok := x.vc.declared[q]; !ok {
+			x.vc.declared[q] = lf.Sort
+			// norm is an abstraction of the array modulo element-wise equality on 0..N-1:
+			// norm(a) = norm(b)  <=>  a[0]=b[0] && ... && a[N-1]=b[N-1]
+			var eqs []string
+			for j := int64(0); j < at.Len(); j++ {
+				ix := fmt.Sprintf("%d", j)
+				if m == ModeBV {
+					ix = fmt.Sprintf("(_ bv%d 64)", j)
+				}
+				eqs = append(eqs, fmt.Sprintf("(= (select a %s) (select b %s))", ix, ix))
+			}
+			raw := fmt.Sprintf("(declare-fun %s (%s) %s)\n(assert (forall ((a %s) (b %s)) (! (= (= (%s a) (%s b)) (and %s)) :pattern ((%s a) (%s b)))))",
+				q, lf.Sort, lf.Sort, lf.Sort, lf.Sort, q, q, strings.Join(eqs, " "), q, q)
+			x.vc.items = append(x.vc.items, Item{Kind: "declfun", Name: q, Raw: raw})
+		}
+		out[i] = App(q, lf.Sort, ls[i])
+	}
+	return out
+}
+
+func (x *Exec) mapHas(st *State, mi mapInfo, ref *Term, k Value) *Term {
+	return And(Not(Eq(ref, nilRef)), nestedSelect(Select(x.mapDom(st, mi), ref), x.keyLeaves(k)))
+}
+
+func (x *Exec) mapGet(st *State, mi mapInfo, ref *Term, k Value) Value {
+	m := x.m()
+	var ls []*Term
+	kl := x.keyLeaves(k)
+	if kindOf(mi.vt) == KStruct && len(m.flatten(mi.vt)) == 0 {
+		return x.zeroValue(mi.vt) // struct{}
+	}
+	for _, lf := range m.flatten(mi.vt) {
+		c := x.comp(st, mi.key+".val"+lf.Suffix, SArr(refSort, curried(mi.ksorts, lf.Sort)))
+		ls = append(ls, nestedSelect(Select(c, ref), kl))
+	}
+	v, _ := m.fromLeaves(mi.vt, ls)
+	return v
+}
+
+func (x *Exec) mapLookup(fr *Frame, st *State, i *ssa.Lookup, base Value) {
+	if base.K != KMap {
+		unsupported("lookup on %v", base.K)
+	}
+	mi := x.mapInfoOf(i.X.Type())
+	k := x.get(fr, st, i.Index)
+	has := x.vc.define(fmt.Sprintf("f%d.%s.ok", fr.id, i.Name()), x.mapHas(st, mi, base.X, k))
+	val := x.mapGet(st, mi, base.X, k)
+	x.assumeLoaded(st, val)
+	res := x.mergeValues(has, val, x.zeroValue(mi.vt))
+	if i.CommaOk {
+		fr.env[i] = Value{T: i.Type(), K: KTuple, Fields: []Value{x.nameValue(fr, fmt.Sprintf("f%d.%s", fr.id, i.Name()), res), {K: KScalar, T: types.Typ[types.Bool], X: has}}}
+		return
+	}
+	x.setv(fr, i, res)
+}
+
+func (x *Exec) mapStore(st *State, mi mapInfo, ref *Term, k, v Value) {
+	m := x.m()
+	kl := x.keyLeaves(k)
+	has := nestedSelect(Select(x.mapDom(st, mi), ref), kl)
+	ln := x.mapLenComp(st, mi)
+	st.H[mi.key+".len"] = Store(ln, ref, Ite(has, Select(ln, ref), x.ixAdd(Select(ln, ref), m.ix(1))))
+	dom := x.mapDom(st, mi)
+	st.H[mi.key+".dom"] = Store(dom, ref, nestedStore(Select(dom, ref), kl, TTrue))
+	if !v.isCanonical() {
+		unsupported("map value holding an interior pointer")
+	}
+	vl := v.leaves(m)
+	for li, lf := range m.flatten(mi.vt) {
+		name := mi.key + ".val" + lf.Suffix
+		c := x.comp(st, name, SArr(refSort, curried(mi.ksorts, lf.Sort)))
+		st.H[name] = Store(c, ref, nestedStore(Select(c, ref), kl, vl[li]))
+	}
+}
+
+func (x *Exec) mapUpdate(fr *Frame, st *State, i *ssa.MapUpdate) {
+	mv := x.get(fr, st, i.Map)
+	mi := x.mapInfoOf(i.Map.Type())
+	x.check(fr, st, "nil", Not(Eq(mv.X, nilRef)), i.Pos(), "assignment to entry in nil map")
+	x.mapStore(st, mi, mv.X, x.get(fr, st, i.Key), x.get(fr, st, i.Value))
+}
+
+func (x *Exec) makeMap(fr *Frame, st *State, i *ssa.MakeMap) {
+	mi := x.mapInfoOf(i.Type())
+	r := x.newRef(st, fmt.Sprintf("f%d.%s", fr.id, i.Name()))
+	dom := x.mapDom(st, mi)
+	inner := curried(mi.ksorts, SBool)
+	st.H[mi.key+".dom"] = Store(dom, r, x.constNested(inner, TFalse))
+	ln := x.mapLenComp(st, mi)
+	st.H[mi.key+".len"] = Store(ln, r, x.m().ix(0))
+	fr.env[i] = Value{T: i.Type(), K: KMap, X: r}
+}
+
+// constNested builds a constant array of a (possibly nested) array sort.
+func (x *Exec) constNested(sort string, leaf *Term) *Term {
+	_, e, ok := arrSorts(sort)
+	if !ok {
+		return leaf
+	}
+	return x.constArray(sort, x.constNested(e, leaf))
+}
+
+func (x *Exec) mapLen(st *State, mv Value) *Term {
+	mi := x.mapInfoOf(mv.T)
+	ln := Select(x.mapLenComp(st, mi), mv.X)
+	x.vc.assumeOnce(x.m().cmp(token.LEQ, x.m().ix(0), ln, IntTy{64, true}))
+	return Ite(Eq(mv.X, nilRef), x.m().ix(0), ln)
+}
+
+func (x *Exec) mapDelete(fr *Frame, st *State, mv, k Value) {
+	mi := x.mapInfoOf(mv.T)
+	m := x.m()
+	kl := x.keyLeaves(k)
+	has := And(Not(Eq(mv.X, nilRef)), nestedSelect(Select(x.mapDom(st, mi), mv.X), kl))
+	ln := x.mapLenComp(st, mi)
+	st.H[mi.key+".len"] = Store(ln, mv.X, Ite(has, x.ixSub(Select(ln, mv.X), m.ix(1)), Select(ln, mv.X)))
+	dom := x.mapDom(st, mi)
+	// deleting from a nil map is a no-op; writing the (unused) cell of ref 0 is harmless
+	st.H[mi.key+".dom"] = Store(dom, mv.X, nestedStore(Select(dom, mv.X), kl, TFalse))
+}
+
+// contract-level m[k] and has(m, k)
+func (x *Exec) mapGetSpec(c *CEnv, mv, k Value) Value {
+	mi := x.mapInfoOf(mv.T)
+	v := x.mapGet(c.heap(), mi, mv.X, k)
+	x.assumeLoaded(c.heap(), v)
+	return v
+}
+
+func (x *Exec) rangeInit(fr *Frame, st *State, i *ssa.Range) { unsupported("range over map/string") }
+func (x *Exec) rangeNext(fr *Frame, st *State, i *ssa.Next)  { unsupported("range next") }
